@@ -65,12 +65,26 @@ def measure_block(Loader):
 
 
 def make_doc(n, wide=False):
-    """one explicit document of about n units: a block sequence of short items"""
+    """one explicit document of about n units.  wide=False: a block sequence of short ASCII items; True: items with a
+    2-byte character; 'run': one plain scalar that is a run of 2-byte characters starting at an odd byte offset (every
+    document has an even byte length, so every even read boundary falls inside a character); 'end': ASCII items closed by
+    an explicit '...' and followed by comment / blank lines (as many units again, at least one line)"""
+    if wide == 'run':
+        return '--- x' + '\u00e9' * max(0, (n - 6) // 2) + '\n'
     if n == 0:
-        return '---\n'
-    item = '- itém\n' if wide else '- item\n'
+        return '---\n' if wide != 'end' else '---\n...\n# c\n\n'
+    item = '- it\u00e9m\n' if wide is True else '- item\n'
     body = item * max(1, (n - 4) // len(item))
+    if wide == 'end':
+        return '---\n' + body + '...\n' + '# comment line\n\n' * max(1, n // 16)
     return '---\n' + body
+
+
+def doc_end(d, wide):
+    """units of the document proper (for 'end' documents: up to and including the '...' line)"""
+    if wide == 'end':
+        return d.index('...\n') + 4
+    return len(d)
 
 
 def make_stream(sizes, tail_blocks, block, wide=False):
@@ -83,8 +97,8 @@ def make_stream(sizes, tail_blocks, block, wide=False):
     ends = []
     pos = 0
     for d in docs:
+        ends.append(pos + doc_end(d, wide))
         pos += len(d)
-        ends.append(pos)
     return text, ends, len(docs) + len(tail)
 
 
@@ -160,23 +174,27 @@ def check_stream(T, sizes, wide, api, be, Loader, block, tails, schedules):
 
 
 BADS = [('scanner', '--- "a\\qb"\n'), ('scanner2', '--- a: b: c\n'), ('parser', '--- [a, b\n'), ('parser2', '--- {a: b]\n'), ('composer', '--- [*undefined]\n'),
-        ('composer2', '--- [&a 1, &a 2]\n'), ('constructor', '--- !nope x\n'), ('constructor2', '--- {[a]: b}\n')]
+        ('composer2', '--- [&a 1, &a 2]\n'), ('constructor', '--- !nope x\n'), ('constructor2', '--- {[a]: b}\n'),
+        ('raw-scanner', '@ not yaml\n'), ('raw-scanner2', '`x\n')]
 
 
-def check_bad(T, nsizes, bad, api, be, Loader, block):
+def check_bad(T, nsizes, bad, api, be, Loader, block, ender=False):
     bname, btext = bad
     if bname.startswith('constructor') and api != 'load_all':
         return
     if bname.startswith('composer') and api not in ('load_all', 'compose_all'):
         return
-    for sizes in itertools.product((0, 10, block + 1), repeat=nsizes):
-        text, ends, _ = make_stream(sizes, 0, block)
+    for sizes, ender in itertools.product(itertools.product((0, 10, block + 1), repeat=nsizes), (False, True)):
+        if bname.startswith('raw') and not (ender and sizes):
+            continue
+        # ender: every good document is closed by an explicit '...' and the malformed text follows it directly
+        text = ''.join(make_doc(sz) + ('...\n' if ender else '') for sz in sizes)
         full = text + btext + '--- after\n'
         for binary in (False, True):
             data = full.encode('utf-8') if binary else full
             for short in (0, 7):
                 T.evaluations += 1
-                case = {'sizes': list(sizes), 'bad': bname, 'api': api, 'backend': be, 'binary': binary, 'short': short}
+                case = {'sizes': list(sizes), 'bad': bname, 'api': api, 'backend': be, 'binary': binary, 'short': short, 'explicit_end': ender}
                 if T.trace: T.begin(case)
                 st = RecStream(data, short)
                 ndoc = 0
@@ -193,7 +211,7 @@ def check_bad(T, nsizes, bad, api, be, Loader, block):
                 want = len(sizes)
                 if api == 'scan':
                     # the tokens of j good documents = j+1 document-start tokens seen (the bad document's own '---' included)
-                    ok = err is not None and ndoc >= want + 1 if bname.startswith('scanner') else True
+                    ok = (err is not None and ndoc >= want + 1) if bname.startswith('scanner') else ((err is not None and ndoc >= want) if bname.startswith('raw') else True)
                     got = ndoc - 1
                 else:
                     ok = err is not None and ndoc == want
@@ -334,8 +352,10 @@ def run_job(job, T):
             if sum(sizes) > 8 * block and k >= 3:
                 continue
             check_stream(T, sizes, False, api, be, Loader, block, tails, scheds)
-            if k == 1 or (k == 2 and rest[0] in (1, 4)):
+            if k == 1 or (k == 2 and rest[0] in (1, 3)):
                 check_stream(T, sizes, True, api, be, Loader, block, tails[:2], scheds[:2])
+                check_stream(T, sizes, 'run', api, be, Loader, block, tails[:2], scheds[:1] + scheds[3:4])
+                check_stream(T, sizes, 'end', api, be, Loader, block, tails[:2], scheds[:2])
         T.sample('consumption', {'api': api, 'backend': be, 'sizes': list(sizes) if sizes else None})
     else:
         raise ValueError(job)
